@@ -234,6 +234,26 @@ func (e *env) genC12() c12case {
 		e.st.Hit("template:iterator-shrink-grow")
 		return c
 	}
+	if e.rng.Chance(6) {
+		// a long list with few distinct names, sorted: stability only shows beyond the sizes an implementation may
+		// special-case (library sorts switch algorithm at 12 elements and again around 50)
+		n := 13 + e.rng.Intn(60)
+		names := []string{"b", "a", "c", "é", "a b", "", "B"}[:2+e.rng.Intn(6)]
+		var ps [][]string
+		for i := 0; i < n; i++ {
+			ps = append(ps, []string{names[e.rng.Intn(len(names))], fmt.Sprintf("v%d", i)})
+		}
+		c.Ctor = []interface{}{"CP", ps}
+		if e.rng.Chance(40) {
+			c.Ops = append(c.Ops, []interface{}{"A", e.word(), e.word()})
+		}
+		c.Ops = append(c.Ops, []interface{}{"O"}, []interface{}{"L", names[0]}, []interface{}{"IE", false}, []interface{}{"N", 0})
+		if e.rng.Chance(50) {
+			c.Ops = append(c.Ops, []interface{}{"D1", names[len(names)-1]}, []interface{}{"O"})
+		}
+		e.st.Hit("template:long-sort")
+		return c
+	}
 	nops := e.rng.Intn(16)
 	niter := 0
 	for i := 0; i < nops; i++ {
